@@ -655,6 +655,8 @@ fn exec(ctx: &mut Ctx, s: &mut S, op: &str) {
                     };
                 }
                 let xs = s.dict_xs.as_deref();
+                // (reply through the `&T` forwarding impl, call log of the direct call, of the forwarded call)
+                let mut glue: Option<(String, Option<String>, Option<String>)> = None;
                 let (rep, orep): (String, Option<String>) = match x {
                     "d_len" => (
                         fmt_r(on!(e => IndexedSeq::len(e)), |v| format!("ok {}", v)),
@@ -692,6 +694,16 @@ fn exec(ctx: &mut Ctx, s: &mut S, op: &str) {
                         } else {
                             on!(e => Succ::succ(e, q))
                         };
+                        // the hand-written `impl Succ for &T` glue must forward to the same method
+                        // (the mock's call log is taken after the first call: drain it again)
+                        let log1 = match d { Dk::Mock(_) => Some(take_log(&s.log)), Dk::Ef(_) => None };
+                        let r2 = if strict {
+                            on!(e => <&_ as Succ>::succ_strict(&e, q))
+                        } else {
+                            on!(e => <&_ as Succ>::succ(&e, q))
+                        };
+                        let log2 = match d { Dk::Mock(_) => Some(take_log(&s.log)), Dk::Ef(_) => None };
+                        glue = Some((fmt_r(r2, opt_pair), log1, log2));
                         let o = xs.map(|xs| {
                             opt_pair(
                                 xs.iter()
@@ -709,6 +721,14 @@ fn exec(ctx: &mut Ctx, s: &mut S, op: &str) {
                         } else {
                             on!(e => Pred::pred(e, q))
                         };
+                        let log1 = match d { Dk::Mock(_) => Some(take_log(&s.log)), Dk::Ef(_) => None };
+                        let r2 = if strict {
+                            on!(e => <&_ as Pred>::pred_strict(&e, q))
+                        } else {
+                            on!(e => <&_ as Pred>::pred(&e, q))
+                        };
+                        let log2 = match d { Dk::Mock(_) => Some(take_log(&s.log)), Dk::Ef(_) => None };
+                        glue = Some((fmt_r(r2, opt_pair), log1, log2));
                         let o = xs.map(|xs| {
                             opt_pair(
                                 xs.iter()
@@ -720,10 +740,20 @@ fn exec(ctx: &mut Ctx, s: &mut S, op: &str) {
                     }
                     _ => unreachable!("unknown d op"),
                 };
-                let log = match d {
+                let mut log = match d {
                     Dk::Mock(_) => take_log(&s.log),
                     Dk::Ef(_) => "-".into(),
                 };
+                let mut rep = rep;
+                if let Some((rep2, l1, l2)) = glue {
+                    if let Some(l) = l1.clone() {
+                        log = l;
+                    }
+                    if rep2 != rep || l1 != l2 {
+                        ctx.stat("glue-mismatch");
+                        rep = format!("glue-mismatch direct=`{}` via-ref=`{}`", rep, rep2);
+                    }
+                }
                 // "the unchecked method is called iff an answer is returned" (sorted lists)
                 if xs.is_some() && log != "-" && matches!(x, "d_succ" | "d_succ_strict" | "d_pred" | "d_pred_strict")
                 {
